@@ -116,7 +116,8 @@ impl<'a> PrettyPrinter<'a> {
                 },
             )
             .print_doc(ListStyle {
-                omit_delim_flat: true,
+                // Bare items would run into the rest of an enclosing list.
+                omit_delim_flat: !ctx.mode.is_code_continued(),
                 omit_delim_empty: true,
                 ..Default::default()
             })
